@@ -489,6 +489,18 @@ template<class L, class R>
                 "post_inc", A + Big(1), [&] { XS x(a); x++; return ci::to_rep(x); }, [&] { XT x(a); x++; return ci::to_rep(x); }, [&] { XR x(a); x++; return ci::to_rep(x); });
         inc(
                 "post_dec", A - Big(1), [&] { XS x(a); x--; return ci::to_rep(x); }, [&] { XT x(a); x--; return ci::to_rep(x); }, [&] { XR x(a); x--; return ci::to_rep(x); });
+        // conversion of the wrapper to a built-in type (wrapper::operator S): checked like convert<Tag, S> of the rep
+        auto to_builtin = [&](auto proto, const char* dn) {
+            using Dn = decltype(proto);
+            int expect = classify<Dn>(A);
+            verify3<Dn>(
+                    (std::string("wrapper_to_builtin<") + dn + ">").c_str(), expect, A, expect == E_VALUE ? "in_range" : "out_of_range", id(), [&] { return static_cast<Dn>(XS(a)); },
+                    [&] { return static_cast<Dn>(XT(a)); }, [&] { return static_cast<Dn>(XR(a)); });
+        };
+        to_builtin(i8{}, "i8");
+        to_builtin(u8{}, "u8");
+        to_builtin(u32{}, "u32");
+        to_builtin(i64{}, "i64");
         vf::counted(a == vals::max_v<L>() || a == vals::min_v<L>());
     }
 }
